@@ -338,7 +338,43 @@ impl Site {
         Some(Self { is_span, level, name, target, module_path, file, line, fields })
     }
 
+    /// Alternates between descriptions made of owned strings (what a deserializer produces) and of
+    /// borrowed `&'static str`s (what an in-process sender produces): equal content either way.
     pub fn to_real(&self) -> CallSiteData {
+        static TOGGLE: std::sync::atomic::AtomicUsize = std::sync::atomic::AtomicUsize::new(0);
+        if TOGGLE.fetch_add(1, std::sync::atomic::Ordering::Relaxed) % 2 == 1 {
+            self.to_real_borrowed()
+        } else {
+            self.to_real_owned()
+        }
+    }
+
+    pub fn to_real_borrowed(&self) -> CallSiteData {
+        // each string is leaked once per content (not per call)
+        static LEAKED: std::sync::Mutex<Option<std::collections::HashMap<String, &'static str>>> = std::sync::Mutex::new(None);
+        let leak = |s: &str| -> std::borrow::Cow<'static, str> {
+            let mut guard = LEAKED.lock().unwrap();
+            let map = guard.get_or_insert_with(Default::default);
+            let r: &'static str = match map.get(s) {
+                Some(r) => r,
+                None => {
+                    let r: &'static str = Box::leak(s.to_owned().into_boxed_str());
+                    map.insert(s.to_owned(), r);
+                    r
+                }
+            };
+            std::borrow::Cow::Borrowed(r)
+        };
+        let mut d = self.to_real_owned();
+        d.name = leak(&self.name);
+        d.target = leak(&self.target);
+        d.module_path = self.module_path.as_deref().map(leak);
+        d.file = self.file.as_deref().map(leak);
+        d.fields = self.fields.iter().map(|f| leak(f)).collect();
+        d
+    }
+
+    pub fn to_real_owned(&self) -> CallSiteData {
         CallSiteData {
             kind: if self.is_span { CallSiteKind::Span } else { CallSiteKind::Event },
             name: self.name.clone().into(),
